@@ -49,13 +49,22 @@ func u32(x interface{}) uint64 {
 	return 0
 }
 
+// dsClient is the downstream side of one run (raw HTTP/1 or raw bolt connection).
+type dsClient interface {
+	Recv(d, grace time.Duration) e2e.Outcome
+	Close()
+}
+
 func main() {
 	cases := flag.String("cases", "", "cases file")
 	out := flag.String("trace", "", "trace output")
 	res := flag.String("results", "", "per-case result lines")
 	shard := flag.Int("shard", 0, "shard index")
 	shards := flag.Int("shards", 1, "number of shards")
+	proto := flag.String("proto", "http1", "http1 | bolt | boltoneway (downstream and upstream protocol of the listener under test)")
 	flag.Parse()
+	isBolt := *proto != "http1"
+	oneway := *proto == "boltoneway"
 	if !vh.HooksCompiled() {
 		vh.Must(fmt.Errorf("built without -tags verif"), "hooks")
 	}
@@ -63,22 +72,40 @@ func main() {
 	defer os.RemoveAll(tmp)
 
 	reg := e2e.NewRegistry()
-	up := e2e.NewHTTPUpstream("u1", reg)
-	defer up.Close()
+	var upAddr string
+	if isBolt {
+		bu := e2e.NewBoltUpstream("u1", reg)
+		defer bu.Close()
+		upAddr = bu.Addr
+	} else {
+		hu := e2e.NewHTTPUpstream("u1", reg)
+		defer hu.Close()
+		upAddr = hu.Addr
+	}
 	ref1, ref2, ref3, ref4 := e2e.RefusedAddr(), e2e.RefusedAddr(), e2e.RefusedAddr(), e2e.RefusedAddr()
 	laddr := e2e.ListenerAddr()
 	rrr := v2.LbType("LB_REQUEST_ROUNDROBIN") // deterministic host order per request: index 0 first, next on retry
 	clusters := e2e.BuildClusters([]e2e.ClusterSpec{
-		{Name: "direct", Hosts: []string{up.Addr}, LbType: rrr},
-		{Name: "r1", Hosts: []string{ref1, up.Addr}, LbType: rrr},
-		{Name: "r2", Hosts: []string{ref1, ref2, up.Addr}, LbType: rrr},
+		{Name: "direct", Hosts: []string{upAddr}, LbType: rrr},
+		{Name: "r1", Hosts: []string{ref1, upAddr}, LbType: rrr},
+		{Name: "r2", Hosts: []string{ref1, ref2, upAddr}, LbType: rrr},
 		{Name: "all", Hosts: []string{ref1, ref2, ref3, ref4}, LbType: rrr},
 	})
 	routes := []e2e.RouteSpec{}
 	for _, c := range []string{"direct", "r1", "r2", "all"} {
-		routes = append(routes, e2e.RouteSpec{Prefix: "/" + c + "/", Cluster: c, RetryOn: true, NumRetries: 2})
+		c := c
+		rs := e2e.RouteSpec{Prefix: "/" + c + "/", Cluster: c, RetryOn: true, NumRetries: 2}
+		if isBolt { // xprotocol requests are routed by a header
+			rs.Prefix = ""
+			rs.Extra = func(r *v2.Router) { r.Match = v2.RouterMatch{Headers: []v2.HeaderMatcher{{Name: "cluster", Value: c}}} }
+		}
+		routes = append(routes, rs)
 	}
-	lst := e2e.BuildListener(e2e.ListenerSpec{Name: "c03", Addr: laddr, Downstream: "Http1", Upstream: "Http1", Routes: routes})
+	ls := e2e.ListenerSpec{Name: "c03", Addr: laddr, Downstream: "Http1", Upstream: "Http1", Routes: routes}
+	if isBolt {
+		ls.Downstream, ls.Upstream, ls.SubProto = "X", "X", "bolt"
+	}
+	lst := e2e.BuildListener(ls)
 	m := e2e.StartMosn(e2e.BuildConfig([]v2.Listener{lst}, clusters, e2e.ScratchLog(tmp)))
 	defer m.Close()
 	vh.Must(e2e.WaitListen(laddr, 5*time.Second), "mosn listener")
@@ -148,7 +175,7 @@ func main() {
 			c.Steps = []string{} // JSON null is not a TLA+ value
 		}
 		tok := fmt.Sprintf("t%d-%d", *shard, idx)
-		tr.Emit(vh.Ev{"ev": "run", "name": tok, "budget": budget, "case": c})
+		tr.Emit(vh.Ev{"ev": "run", "name": tok, "budget": budget, "case": c, "proto": *proto})
 		// ids grow monotonically: everything >= the next id belongs to this run
 		mark := sched.Mark()
 		hdr := map[string]string{"X-Token": tok, "X-Script": strings.Join(c.Script, ","),
@@ -186,9 +213,22 @@ func main() {
 				sched.HoldNth(pt, nth)
 			}
 		}
-		cl, err := e2e.DialHTTP(laddr)
-		vh.Must(err, "dial proxy")
-		vh.Must(cl.Send("GET", "/"+c.Cluster+"/x?tok="+tok, hdr, ""), "send")
+		var cl dsClient
+		if isBolt {
+			bc, err := e2e.DialBolt(laddr)
+			vh.Must(err, "dial proxy")
+			bh := map[string]string{"cluster": c.Cluster, "token": tok, "script": strings.Join(c.Script, ",")}
+			if c.Try {
+				bh["x-mosn-try-timeout"] = fmt.Sprint(tryMs)
+			}
+			vh.Must(bc.Send(oneway, globalMs, bh, tok), "send")
+			cl = bc
+		} else {
+			hc, err := e2e.DialHTTP(laddr)
+			vh.Must(err, "dial proxy")
+			vh.Must(hc.Send("GET", "/"+c.Cluster+"/x?tok="+tok, hdr, ""), "send")
+			cl = hc
+		}
 		reached, happened := false, false
 		clientClosed := false
 		if len(c.Steps) > 0 {
@@ -303,7 +343,15 @@ func main() {
 		// from here on nothing is held: the request must complete by itself within the timeout
 		var o e2e.Outcome
 		if !clientClosed {
-			o = cl.Recv(time.Duration(globalMs+900)*time.Millisecond, 40*time.Millisecond)
+			if oneway {
+				// a one-way request has no reply: anything that arrives within the grace time is a violation
+				o = cl.Recv(150*time.Millisecond, 0)
+				if o.Kind == "timeout" {
+					o.Kind = "oneway-none"
+				}
+			} else {
+				o = cl.Recv(time.Duration(globalMs+900)*time.Millisecond, 40*time.Millisecond)
+			}
 			cl.Close()
 		} else {
 			o = e2e.Outcome{Kind: "closed"}
